@@ -15,12 +15,11 @@ import (
 
 func init() { Monitors["C05"] = runC05 }
 
-
 // hb is the behaviour of one handler of a C05 chain.
 type hb struct {
-	ID    string
-	Nexts int // for non-aborting handlers: 0, 1, 2
-	Ab    *abortPlan
+	ID             string
+	Nexts          int // for non-aborting handlers: 0, 1, 2
+	Ab             *abortPlan
 	SetStatusFirst int // != 0: this handler records that status at entry (SetStatus, nothing committed)
 }
 
@@ -178,9 +177,9 @@ func (s *specRun) run(h hb) {
 
 // c05Chain describes one case.
 type c05Chain struct {
-	Chain         []hb
-	NGlobal       int // the first NGlobal handlers are global middleware
-	NGroup        int // then group middleware
+	Chain          []hb
+	NGlobal        int // the first NGlobal handlers are global middleware
+	NGroup         int // then group middleware
 	GlobalUseCalls int // globals added by this many Use calls
 	// uninstrumented global middleware registered in front of everything else
 	Recover    bool // a recover()-and-go-on middleware (inert unless something panics)
@@ -292,7 +291,7 @@ func (cc c05Chain) build() *rux.Router {
 }
 
 func runC05(e *Env) {
-	e.Rule = "chains global+group+route middleware+main built through Use (one or several calls), Group middleware, variadic route middleware and Route.Use; exhaustive: every chain length 1..L (L=7 quick, 9 thorough) x every position of the aborting handler x {Abort, AbortThen, AbortWithStatus(code), AbortWithStatus(code,msg), code incl. 200, optionally after the first handler recorded another status without committing} x abort before/after/without its own Next() x extra Next() after the abort x every subset of the other handlers calling/not calling Next() x body byte written before the abort or not; sampled: long chains with totals around 31..33, 61..66 and 126..140 (beyond 63 through global middleware) and random behaviours (incl. double Next); after every aborted request a second request on the same router in which nobody aborts. Observed: enter/leave/abort events and IsAborted() sampled at entry, before/after the abort call and at leave of every handler, status/body at the recording writer. Oracle: specification-level interpreter of Next/Abort. Non-trivial: every case (each has an abort); distinct by chain description. Sampled chains may run behind an uninstrumented recover middleware and/or a buffering middleware that replaced c.Resp, or on a writer whose first body write fails, or behind pkg/handlers.Timeout(1h). Part unroutable: a global middleware aborts a request that only the router's built-in 404/405 answer would serve (that answer must not run). Part mounted: the chain ends in a rux sub-router / HandlerFunc mounted through WrapH (it records a status or nothing, writes nothing, may abort its own context) and a middleware aborts with a status after its Next(). Re-dispatch part: a handler hands the context to the router again (HandleContext) and a handler of that inner chain aborts; then, on the same router, a request aborts in a middleware and the router serves another request inside that middleware before the first goes on (its abort must stand, it must keep its own context); and a handler that calls AbortWithStatus and then re-dispatches to a route that only writes a body (the status stands)."
+	e.Rule = "chains global+group+route middleware+main built through Use (one or several calls), Group middleware, variadic route middleware and Route.Use; exhaustive: every chain length 1..L (L=7 quick, 9 thorough) x every position of the aborting handler x {Abort, AbortThen, AbortWithStatus(code), AbortWithStatus(code,msg), code incl. 200, optionally after the first handler recorded another status without committing} x abort before/after/without its own Next() x extra Next() after the abort x every subset of the other handlers calling/not calling Next() x body byte written before the abort or not; sampled: long chains with totals around 31..33, 61..66 and 126..140 (beyond 63 through global middleware) and random behaviours (incl. double Next); after every aborted request a second request on the same router in which nobody aborts. Observed: enter/leave/abort events and IsAborted() sampled at entry, before/after the abort call and at leave of every handler, status/body at the recording writer. Oracle: specification-level interpreter of Next/Abort. Non-trivial: every case (each has an abort); distinct by chain description. Sampled chains may run behind an uninstrumented recover middleware and/or a buffering middleware that replaced c.Resp, or on a writer whose first body write fails, or behind pkg/handlers.Timeout(1h). Part unroutable: a global middleware aborts a request that only the router's built-in 404/405 answer would serve (that answer must not run). Part mounted: the chain ends in a rux sub-router / HandlerFunc mounted through WrapH (it records a status or nothing, writes nothing, may abort its own context) and a middleware aborts with a status after its Next(). Re-dispatch part: a handler hands the context to the router again (HandleContext) and a handler of that inner chain aborts; then, on the same router, a request aborts in a middleware and the router serves another request inside that middleware before the first goes on (its abort must stand, it must keep its own context); and a handler that calls AbortWithStatus and then re-dispatches to a route that only writes a body (the status stands). Parts debug-mode / debug-mode-mounted: short plans of the same generator and the mounted part with rux.Debug(true) (one worker; the switch is process-wide): the trace output must not change what an abort does."
 	e.Assumptions = []string{
 		"a route's own chain (group + route middleware + main handler) stays within the registration limit of 63; global middleware, which that limit does not count, makes executed chains of up to 140 entries",
 	}
@@ -369,87 +368,96 @@ func runC05(e *Env) {
 	})
 
 	// sampled long chains
-	e.RunCases("long-chains", e.N(3000, 2000000), 0, func(t *T) {
-		r := t.R
-		total := pick(r, []int{9, 12, 20, 31, 32, 33, 40, 50, 61, 62, 63, 63, 63, 64, 65, 66, 80, 100, 126, 127, 128, 129, 140})
-		cc := c05Chain{}
-		j := r.IntN(total)
-		if chance(r, 1, 4) {
-			j = total - 1 - r.IntN(3)
-			if j < 0 {
-				j = 0
+	longChain := func(totals []int) func(t *T) {
+		return func(t *T) {
+			r := t.R
+			total := pick(r, totals)
+			cc := c05Chain{}
+			j := r.IntN(total)
+			if chance(r, 1, 4) {
+				j = total - 1 - r.IntN(3)
+				if j < 0 {
+					j = 0
+				}
 			}
-		}
-		noAbort := chance(r, 1, 6)
-		for k := 0; k < total; k++ {
-			h := hb{ID: fmt.Sprintf("h%d", k), Nexts: 1}
-			switch x := r.IntN(20); {
-			case x == 0:
-				h.Nexts = 0
-			case x == 1:
-				h.Nexts = 2
-			}
-			if k == j && !noAbort {
-				h.Ab = &abortPlan{Kind: pick(r, kinds), When: pick(r, whens), ExtraNext: chance(r, 1, 2), WriteBefore: chance(r, 1, 4)}
-				if strings.HasPrefix(h.Ab.Kind, "AbortWithStatus") {
-					h.Ab.Code = pick(r, []int{401, 403, 404, 500, 503, 200, 200, 204, 499, 520, 299, 999}) // (also codes without a registered reason phrase)
-					if chance(r, 1, 2) {
-						h.Ab.PreStatus = pick(r, []int{503, 404, 201, 200})
+			noAbort := chance(r, 1, 6)
+			for k := 0; k < total; k++ {
+				h := hb{ID: fmt.Sprintf("h%d", k), Nexts: 1}
+				switch x := r.IntN(20); {
+				case x == 0:
+					h.Nexts = 0
+				case x == 1:
+					h.Nexts = 2
+				}
+				if k == j && !noAbort {
+					h.Ab = &abortPlan{Kind: pick(r, kinds), When: pick(r, whens), ExtraNext: chance(r, 1, 2), WriteBefore: chance(r, 1, 4)}
+					if strings.HasPrefix(h.Ab.Kind, "AbortWithStatus") {
+						h.Ab.Code = pick(r, []int{401, 403, 404, 500, 503, 200, 200, 204, 499, 520, 299, 999}) // (also codes without a registered reason phrase)
+						if chance(r, 1, 2) {
+							h.Ab.PreStatus = pick(r, []int{503, 404, 201, 200})
+						}
+						h.Ab.AddError = chance(r, 1, 3)
 					}
-					h.Ab.AddError = chance(r, 1, 3)
 				}
+				cc.Chain = append(cc.Chain, h)
 			}
-			cc.Chain = append(cc.Chain, h)
-		}
-		for _, h := range cc.Chain {
-			if h.Ab != nil && h.Ab.PreStatus != 0 {
-				cc.Chain[0].SetStatusFirst = h.Ab.PreStatus
-			}
-		}
-		mw := total - 1
-		// route+group middleware must stay <= 62
-		cc.NGlobal = r.IntN(mw + 1)
-		if mw-cc.NGlobal > 62 {
-			cc.NGlobal = mw - 62
-		}
-		cc.NGroup = r.IntN(mw - cc.NGlobal + 1)
-		cc.GlobalUseCalls = 1 + r.IntN(2)
-		cc.Recover = chance(r, 1, 4)
-		cc.FailWrites = chance(r, 1, 4)
-		cc.Timeout = chance(r, 1, 4)
-		if cc.Timeout {
-			t.Count("long.behind_timeout_middleware", 1)
-		}
-		if chance(r, 1, 4) {
-			plain := true
 			for _, h := range cc.Chain {
-				if h.SetStatusFirst != 0 || (h.Ab != nil && (h.Ab.WriteBefore || h.Ab.PreStatus != 0)) {
-					plain = false
+				if h.Ab != nil && h.Ab.PreStatus != 0 {
+					cc.Chain[0].SetStatusFirst = h.Ab.PreStatus
 				}
 			}
-			// (what a status recorded past the buffer, or a write in front of it, should become is the
-			// buffering middleware's business, not the statement's: only plain plans get one)
-			cc.Wrapper = plain
-		}
-		if !cc.Recover && !cc.Wrapper && chance(r, 1, 5) {
-			for i := range cc.Chain {
-				if cc.Chain[i].Ab != nil {
-					cc.Chain[i].Ab.PanicAfter = true
+			mw := total - 1
+			// route+group middleware must stay <= 62
+			cc.NGlobal = r.IntN(mw + 1)
+			if mw-cc.NGlobal > 62 {
+				cc.NGlobal = mw - 62
+			}
+			cc.NGroup = r.IntN(mw - cc.NGlobal + 1)
+			cc.GlobalUseCalls = 1 + r.IntN(2)
+			cc.Recover = chance(r, 1, 4)
+			cc.FailWrites = chance(r, 1, 4)
+			cc.Timeout = chance(r, 1, 4)
+			if cc.Timeout {
+				t.Count("long.behind_timeout_middleware", 1)
+			}
+			if chance(r, 1, 4) {
+				plain := true
+				for _, h := range cc.Chain {
+					if h.SetStatusFirst != 0 || (h.Ab != nil && (h.Ab.WriteBefore || h.Ab.PreStatus != 0)) {
+						plain = false
+					}
+				}
+				// (what a status recorded past the buffer, or a write in front of it, should become is the
+				// buffering middleware's business, not the statement's: only plain plans get one)
+				cc.Wrapper = plain
+			}
+			if !cc.Recover && !cc.Wrapper && chance(r, 1, 5) {
+				for i := range cc.Chain {
+					if cc.Chain[i].Ab != nil {
+						cc.Chain[i].Ab.PanicAfter = true
+					}
 				}
 			}
+			if cc.Recover {
+				t.Count("long.with_recover_middleware", 1)
+			}
+			if cc.FailWrites {
+				t.Count("long.first_write_fails", 1)
+			}
+			if cc.Wrapper {
+				t.Count("long.with_buffering_middleware", 1)
+			}
+			t.Count("long.total_"+itoa(total), 1)
+			c05Check(t, cc)
 		}
-		if cc.Recover {
-			t.Count("long.with_recover_middleware", 1)
-		}
-		if cc.FailWrites {
-			t.Count("long.first_write_fails", 1)
-		}
-		if cc.Wrapper {
-			t.Count("long.with_buffering_middleware", 1)
-		}
-		t.Count("long.total_"+itoa(total), 1)
-		c05Check(t, cc)
-	})
+	}
+	e.RunCases("long-chains", e.N(3000, 2000000), 0, longChain([]int{9, 12, 20, 31, 32, 33, 40, 50, 61, 62, 63, 63, 63, 64, 65, 66, 80, 100, 126, 127, 128, 129, 140}))
+	// the same plans with the router's debug tracing switched on (a process-wide switch: one worker,
+	// nothing else runs meanwhile): tracing must not change what an abort does
+	rux.Debug(true)
+	e.RunCases("debug-mode", e.N(150, 2000), 1, longChain([]int{2, 3, 4, 5, 7, 9}))
+	e.RunCases("debug-mode-mounted", e.N(60, 600), 1, c05Mounted)
+	rux.Debug(false)
 	// an abort inside a chain that was reached through HandleContext (re-dispatch from the LAST
 	// handler of the outer chain... or from an earlier one): it must stop the outer chain as well
 	e.RunCases("redispatch-abort", e.N(1500, 100000), 0, c05Redispatch)
@@ -835,7 +843,6 @@ func c05Redispatch(t *T) {
 	}
 }
 
-
 // c05Mounted: the chain ends in another rux handler mounted as a plain http.Handler (a sub-router
 // or a rux.HandlerFunc through WrapH); it records a status or nothing and writes no body. A
 // middleware of the outer chain aborts with a status after its Next() returned: nothing has been
@@ -934,7 +941,6 @@ func c05Mounted(t *T) {
 		t.Fail("abort-status-not-applied-behind-mounted-handler", "the mounted %s recorded status %d and wrote nothing; o%d then called AbortWithStatus(%d%s): expected exactly one WriteHeader(%d) and body %q, the writer saw %s", kind, innerStatus, ab, code, map[bool]string{true: ", \"denied\"", false: ""}[withMsg], code, wantBody, rec.CallLog())
 	}
 }
-
 
 // c05Unroutable: the request matches no route (404) or only routes of other methods (405 handling on) and the
 // router's built-in answers are in charge; a GLOBAL middleware aborts before anything is written. The built-in
